@@ -7,6 +7,9 @@ import GLua.Model.CompileProto
 namespace GLua.CompileWf
 open GLua.Compile GLua.MiniVM GLua.Lowering
 
+variable [NumStruct]
+set_option linter.unusedSectionVars false
+
 theorem localsBelow_of_scoped (n : Nat) : ∀ (e : Cond), condScoped n e = true → LocalsBelow n e := by
   intro e
   induction e with
@@ -18,6 +21,12 @@ theorem localsBelow_of_scoped (n : Nat) : ∀ (e : Cond), condScoped n e = true 
     intro h; simp only [condScoped, Bool.and_eq_true] at h; exact ⟨ihl h.1, ihr h.2⟩
   | rel op l r ihl ihr =>
     intro h; simp only [condScoped, Bool.and_eq_true] at h; exact ⟨ihl h.1, ihr h.2⟩
+  | arith op l r ihl ihr =>
+    intro h; simp only [condScoped, Bool.and_eq_true] at h; exact ⟨ihl h.1, ihr h.2⟩
+  | concat l r ihl ihr =>
+    intro h; simp only [condScoped, Bool.and_eq_true] at h; exact ⟨ihl h.1, ihr h.2⟩
+  | unm c ih => intro h; exact ih (by simpa [condScoped] using h)
+  | len c ih => intro h; exact ih (by simpa [condScoped] using h)
   | _ => intro _; trivial
 
 /-- statement-level frame: invariant and code prefix (the register top may change). -/
@@ -149,9 +158,9 @@ theorem stores_post : ∀ (ps : List (Target × AssignCtx)) (st : CState) (reg :
     | glob id =>
       simp only [assignStores]
       have hc := ext_constIndex (gname id) hI
-      have hf := constIndex_find st (gname id)
+      have hf := constIndex_find st (gname id) rfl
       have hx : Ext st (emit (constIndex st (gname id)).1 (.setg (reg - 1) id)) :=
-        hc.emit (by simp only [IOK, hf.1, Option.isSome_some, and_true]; have := hc.mr_le; omega)
+        hc.emit (by simp only [IOK, hf, Option.isSome_some, and_true]; have := hc.mr_le; omega)
       obtain ⟨h1, h2⟩ := ih _ (reg - 1) hx.inv (by have := hx.mr_le; omega)
       exact ⟨hx.trans h1, fun _ => h2 (noSkipLast_emit _ _ rfl)⟩
 
